@@ -33,6 +33,7 @@ import sys
 import termios
 import threading
 import time
+import traceback
 from dataclasses import dataclass
 from pathlib import Path
 from types import FrameType
@@ -126,7 +127,7 @@ def _stack_brief(frame: FrameType | None, n: int = 6) -> str:
 class Conn:
     """A client transport + the server end served by a thread (or a child process) the harness owns."""
 
-    def __init__(self, kind: str, server: RpcServer | None) -> None:
+    def __init__(self, kind: str, server: RpcServer | None, wrap_server: Callable[[Any], Any] | None = None) -> None:
         self.kind = kind
         self.server_exit: dict[str, Any] = {}
         self.server_thread: threading.Thread | None = None
@@ -150,12 +151,15 @@ class Conn:
         else:
             raise ValueError(kind)
 
+        served = wrap_server(self.server_t) if wrap_server is not None else self.server_t
+
         def run() -> None:
             try:
-                server.serve(self.server_t)
+                server.serve(served)
                 self.server_exit["how"] = "returned"
             except BaseException as e:  # noqa: BLE001 - recorded, judged by the oracle
                 self.server_exit["how"] = f"raised {type(e).__name__}: {str(e)[:200]}"
+                self.server_exit["tb"] = traceback.format_exc()
 
         self.server_thread = threading.Thread(target=run, name=f"c04-server-{kind}", daemon=True)
         self.server_thread.start()
